@@ -11,6 +11,7 @@ import (
 	"os"
 	"path/filepath"
 	"runtime/debug"
+	"runtime/pprof"
 	"sort"
 	"strings"
 	"time"
@@ -128,6 +129,13 @@ func main() {
 		fatal("unknown or unclaimed property %q", *prop)
 	}
 
+	if pf := os.Getenv("JPCHECK_PROF"); pf != "" {
+		f, err := os.Create(pf)
+		if err == nil {
+			pprof.StartCPUProfile(f)
+			defer pprof.StopCPUProfile()
+		}
+	}
 	start := time.Now()
 	code := 0
 	func() {
@@ -145,6 +153,7 @@ func main() {
 		}()
 		code = check(spec, *tier, *root, *verbose, replayOb, !*noEvidence && replayOb == nil, start)
 	}()
+	pprof.StopCPUProfile()
 	os.Exit(code)
 }
 
